@@ -1,5 +1,6 @@
 SPECIFICATION Spec
 CONSTANT MaxItems = 4
 CONSTANT FullLen = 3
+CONSTANT McTypes = {"CDATA", "ID", "IDREF", "IDREFS", "ENTITY", "ENTITIES", "NMTOKEN", "NMTOKENS", "ENUM", "NOTATION"}
 INVARIANT Inv
 CHECK_DEADLOCK FALSE
